@@ -5,6 +5,8 @@
 //	c13 gen    <stream> <seed> <ncases> <ops-out>
 //	c13 exec   <stream> <ops-in> <impl-out>
 //	c13 oracle <stream> <ops-in> <verdict-out>
+//	c13 table  lockfacts <out.lean>           (facts.go: lock discipline read off the sources)
+//	c13 stress <seconds> <seed> <out>         (stress.go: ungated, for the -race build)
 //
 // The Lean driver (lean/IstioModel/C13/Driver.lean) consumes the same ops file; outputs are
 // compared line by line.
@@ -38,9 +40,19 @@ func writeStats(outp string) {
 }
 
 func main() {
+	if len(os.Args) == 4 && os.Args[1] == "table" && os.Args[2] == "lockfacts" {
+		writeLockFacts(os.Args[3])
+		return
+	}
 	if len(os.Args) < 5 {
 		fmt.Fprintln(os.Stderr, "usage: c13 gen|exec|oracle ...")
 		os.Exit(2)
+	}
+	if os.Args[1] == "stress" {
+		secs, _ := strconv.Atoi(os.Args[2])
+		seed, _ := strconv.ParseUint(os.Args[3], 10, 64)
+		runStress(secs, seed, os.Args[4])
+		return
 	}
 	stream := os.Args[2]
 	switch os.Args[1] {
